@@ -7,7 +7,7 @@ from sa.astx import body_walk, call_attr, call_name, dotted, src
 from sa.effects import class_accesses
 from sa.selftest import Mutant, Silent
 from sa.source import methods
-from sa.props._lib_c import (norm_class, resolve_name_test, anchor_methods, section, all_funcs_of_class, assign_pairs, enclosing, eq_test, gfind, guarded_eq, guarded_ne, guarded_none, guarded_not_none,
+from sa.props._lib_c import (reviewed_helpers, norm_class, resolve_name_test, anchor_methods, section, all_funcs_of_class, assign_pairs, enclosing, eq_test, gfind, guarded_eq, guarded_ne, guarded_none, guarded_not_none,
                              is_const, is_none_test, may_mutate, must_pass, nested_defs, no_exc, parents, self_attr)
 
 PROPERTY = "C11"
@@ -95,6 +95,9 @@ def check(ctx):
     coop = norm_class(ctx, TASK, "Cooperator", CK + ("_tasksWhileNotStopped",))
     tm = anchor_methods(ctx, TASK, task, TK)
     cm = anchor_methods(ctx, TASK, coop, CK[:7])
+    # a private walk helper of the Cooperator (the method that draws from the round-robin iterator) is followed by the rules themselves
+    # (summary: where it advances the drawn task, which answer it returns on exhaustion), so calling it does not make its caller opaque
+    reviewed_helpers(ctx, *[nm for nm, fx in methods(coop).items() if _draws(fx)])
     funcs = [("CooperativeTask", q, f) for q, f in all_funcs_of_class(task)] + [("Cooperator", q, f) for q, f in all_funcs_of_class(coop)]
 
     # ---- _checkFinish raises the stored state; pause/stop start with it -------------------------------------------
@@ -451,9 +454,14 @@ def check(ctx):
                             break
                     walkers_ = [nm for nm, fx in methods(coop).items() if _draws(fx)]
                     gens_ = [nm for nm in walkers_ if any(isinstance(x, ast.Yield) for x in body_walk(methods(coop)[nm]))]
-                    drawn_here = {d[2] for d in _draws(fn)} if qn == "Cooperator._tick" else set()
-                    ok_site = qn == "Cooperator._tick" and ((src(c.func.value) in drawn_here) or
-                                                            (loop is not None and any(src(loop.iter) == f"self.{nm}()" for nm in gens_)))
+                    drawn_here = {d[2] for d in _draws(fn)} if cname == "Cooperator" and qn.count(".") == 1 else set()
+                    me = qn.split(".", 1)[1] if "." in qn else qn
+                    # who drives the method that draws: the tick itself, or a private walk helper that only _tick calls
+                    drivers = {q2 for _, q2, f2 in funcs for x in (ast.walk(f2.body) if isinstance(f2, ast.Lambda) else body_walk(f2))
+                               if isinstance(x, ast.Attribute) and x.attr == me and isinstance(x.value, ast.Name) and x.value.id == "self"} if me != "_tick" else set()
+                    driven_by_tick = me == "_tick" or (bool(drivers) and drivers <= {"Cooperator._tick"})
+                    ok_site = (src(c.func.value) in drawn_here and driven_by_tick) or \
+                        (qn == "Cooperator._tick" and loop is not None and any(src(loop.iter) == f"self.{nm}()" for nm in gens_))
                     ctx.check(ok_site, "advance/only-runnable", key,
                               "a task is advanced outside the tick's walk over the runnable set (it may be paused, finished or waiting)")
                 if call_attr(c) == "_addTask":
@@ -594,9 +602,43 @@ def check(ctx):
                 ctx.check(ok, "fair/renew-only-when-exhausted", key,
                           "the round-robin iterator is renewed before the previous round is exhausted (or the walk keeps drawing from the old one): tasks late in the "
                           "list are starved when ticks end early")
-            ctx.check(bool(renew), "fair/renew-only-when-exhausted", q + " | <renew>", "the round-robin iterator is never renewed: after one round no task is advanced")
+            # a walk helper may report exhaustion through its return value and leave the renewal to its driver:
+            #     while self._tasks and not self._walk(...): self._metarator = iter(self._tasks)
+            # then the renewal must be guarded by that answer, and in the helper that answer must only be produced on the exhaustion edge
+            renewed_elsewhere = 0
             for other in [a for a in class_accesses(mod, coop, {"_metarator"}, receivers={"self"}) if a.func not in ("Cooperator.__init__", f"Cooperator.{walk_name}")]:
-                ctx.violation("fair/renew-only-when-exhausted", ctx.construct(f"twisted.internet.task.{other.func}", other.node), "the round-robin iterator is reset outside the walk")
+                okey = ctx.construct(f"twisted.internet.task.{other.func}", "<renew the round-robin iterator>")
+                fo = methods(coop).get(other.func.split(".", 1)[1]) if other.func.count(".") == 1 else None
+                verdict = None
+                if fo is not None and kind == "for":
+                    go = ctx.cfg(fo)
+                    v = next((v for t, v in assign_pairs(other.node) if self_attr(t, "_metarator")), None)
+                    for n in go.ids_of(other.node):
+                        for t, lab in go.edge_guards(n):
+                            te = go.node(t).ast
+                            if isinstance(te, ast.Call) and call_name(te) == f"self.{walk_name}":
+                                want = (lab == "T")       # truthiness of the helper's answer under which the iterator is renewed
+                                rets = g.ids(lambda nd: nd.kind == "stmt" and isinstance(nd.ast, ast.Return))
+                                consts = all(g.node(r).ast.value is None or isinstance(g.node(r).ast.value, ast.Constant) for r in rets)
+                                if not consts:
+                                    ctx.note(f"fair/renew-only-when-exhausted: {walk_name}() returns a computed answer; renewal in {other.func} not decided structurally")
+                                    verdict = "abstain"
+                                    continue
+                                signal = [r for r in rets if bool(g.node(r).ast.value.value if g.node(r).ast.value is not None else None) == want]
+                                if not want:    # falling off the end answers None (falsy)
+                                    signal += [p_ for p_, l in g.pred[g.exit] if l != "exc" and p_ not in rets]
+                                not_via_done = lambda a_, b_, l_: not (a_ in heads and l_ == "done")
+                                w = next((g.path([g.entry], [r], edge_ok=not_via_done) for r in signal if g.path([g.entry], [r], edge_ok=not_via_done)), None)
+                                good = bool(signal) and w is None and isinstance(v, ast.Call) and dotted(v.func) == "iter" and len(v.args) == 1 and src(v.args[0]) == "self._tasks"
+                                verdict = "ok" if good else "bad"
+                                ctx.check(good, "fair/renew-only-when-exhausted", okey,
+                                          f"the iterator is renewed when {walk_name}() answers {'true' if want else 'false'}, but that answer is also given before the round "
+                                          "is exhausted (or the new iterator is not over the live list): tasks late in the list are starved", witness=g.describe(w))
+                if verdict is None:
+                    ctx.violation("fair/renew-only-when-exhausted", ctx.construct(f"twisted.internet.task.{other.func}", other.node), "the round-robin iterator is reset outside the walk")
+                elif verdict in ("ok", "abstain"):
+                    renewed_elsewhere += 1
+            ctx.check(bool(renew) or renewed_elsewhere > 0, "fair/renew-only-when-exhausted", q + " | <renew>", "the round-robin iterator is never renewed: after one round no task is advanced")
             preds_ = {t.id for st in body_walk(f) for t, v in assign_pairs(st) if isinstance(t, ast.Name) and isinstance(v, ast.Call) and "_terminationPredicateFactory" in src(v.func)}
             tterm = [t for t in g.ids(lambda n: n.kind == "test" and isinstance(n.ast, ast.Call) and (isinstance(n.ast.func, ast.Name) and (n.ast.func.id in preds_ or not preds_)))]
             adv = gfind(g, lambda x: (isinstance(x, ast.Yield) and x.value is not None and src(x.value) == loopvar) or
@@ -611,6 +653,9 @@ def check(ctx):
             w = must_pass(g, drawn, adv, to=list(heads) + [g.exit], exc=False)
             ctx.check(w is None, "fair/yields-runnable", q + " | <every element>", "a task taken from the iterator can be skipped without being advanced", witness=g.describe(w))
             wl = g.ids(lambda n: n.kind == "test" and src(n.ast) == "self._tasks")
+            if not wl and walk_name != "_tick" and "_tick" in methods(coop):
+                gt = ctx.cfg(methods(coop)["_tick"])
+                wl = gt.ids(lambda n: n.kind == "test" and src(n.ast) == "self._tasks")
             ctx.check(bool(wl), "fair/stops-when-empty", q, "the walk does not terminate when the runnable set is empty (busy loop) or never starts")
 
     # ---- Cooperator._tick --------------------
@@ -803,6 +848,13 @@ MUTANTS = [
            "        for taskObj in list(self._tasks):\n            taskObj._completeWith(SchedulerStopped(), Failure(SchedulerStopped()))\n        self._tasks = []\n",
            expect_rule="complete/once"),
     Mutant("stop-forgets-tasks-without-completing", TASK, _STOPLOOP, "        self._tasks = []\n", expect_rule="stop/"),
+    Mutant("round-renewed-when-the-helper-reports-an-early-stop", TASK, "        self._delayedCall = None\n        for taskObj in self._tasksWhileNotStopped():\n            taskObj._oneWorkUnit()\n        self._reschedule()\n", "        self._delayedCall = None\n        enough = self._terminationPredicateFactory()\n        while self._tasks:\n            if self._serveRound(enough):\n                break\n            self._metarator = iter(self._tasks)\n        self._reschedule()\n",
+           more=[(TASK, "        terminator = self._terminationPredicateFactory()\n        while self._tasks:\n            for t in self._metarator:\n                yield t\n                if terminator():\n                    return\n            self._metarator = iter(self._tasks)\n", "        return iter(())\n"), (TASK, "    def _tick(self) -> None:\n", "    def _serveRound(self, enough) -> bool:\n        for current in self._metarator:\n            current._oneWorkUnit()\n            if enough():\n                return False\n        return True\n\n    def _tick(self) -> None:\n")],
+           expect_rule="fair/renew-only-when-exhausted"),
+    Mutant("round-helper-advances-a-task-it-did-not-draw", TASK, "        self._delayedCall = None\n        for taskObj in self._tasksWhileNotStopped():\n            taskObj._oneWorkUnit()\n        self._reschedule()\n", "        self._delayedCall = None\n        enough = self._terminationPredicateFactory()\n        while self._tasks:\n            if not self._serveRound(enough):\n                break\n            self._metarator = iter(self._tasks)\n        self._reschedule()\n",
+           more=[(TASK, "        terminator = self._terminationPredicateFactory()\n        while self._tasks:\n            for t in self._metarator:\n                yield t\n                if terminator():\n                    return\n            self._metarator = iter(self._tasks)\n", "        return iter(())\n"),
+                 (TASK, "    def _tick(self) -> None:\n", "    def _serveRound(self, enough) -> bool:\n        for current in self._metarator:\n            current._oneWorkUnit()\n            self._tasks[0]._oneWorkUnit()\n            if enough():\n                return False\n        return True\n\n    def _tick(self) -> None:\n")],
+           expect_rule="advance/only-runnable"),
     Mutant("coiterate-unchained", TASK, "        whenDone.chainDeferred(doneDeferred)\n        return doneDeferred\n", "        whenDone.addErrback(doneDeferred.errback)\n        return doneDeferred\n",
            expect_rule="coiterate/chained-to-whenDone"),
     Mutant("second-live-loop-over-tasks", TASK, "        self._stopped = False\n        self._started = True\n",
@@ -863,4 +915,7 @@ SILENT = [
            "        while self._tasks:\n            for t in self._metarator:\n                yield t\n                if terminator():\n                    return\n            self._metarator = iter(self._tasks)\n",
            "        turn = self._metarator\n        while self._tasks:\n            try:\n                candidate = next(turn)\n            except StopIteration:\n"
            "                self._metarator = turn = iter(self._tasks)\n                continue\n            yield candidate\n            if terminator():\n                return\n"),
+    # --- third round: the pull-style generator replaced by a push-style round helper that reports exhaustion to the tick
+    Silent("round-helper-reports-exhaustion-to-the-tick", TASK, "        self._delayedCall = None\n        for taskObj in self._tasksWhileNotStopped():\n            taskObj._oneWorkUnit()\n        self._reschedule()\n", "        self._delayedCall = None\n        enough = self._terminationPredicateFactory()\n        while self._tasks:\n            if not self._serveRound(enough):\n                break\n            self._metarator = iter(self._tasks)\n        self._reschedule()\n",
+           more=[(TASK, "        terminator = self._terminationPredicateFactory()\n        while self._tasks:\n            for t in self._metarator:\n                yield t\n                if terminator():\n                    return\n            self._metarator = iter(self._tasks)\n", "        return iter(())\n"), (TASK, "    def _tick(self) -> None:\n", "    def _serveRound(self, enough) -> bool:\n        for current in self._metarator:\n            current._oneWorkUnit()\n            if enough():\n                return False\n        return True\n\n    def _tick(self) -> None:\n")]),
 ]
